@@ -22,6 +22,14 @@ class PeerDown(RuntimeError):
     pass
 
 
+class PeerTimeout(Exception):
+    pass
+
+
+def n_unreachable(polyhedron):
+    return False
+
+
 def _bounds_of(polyhedron):
     vs = polyhedron.A.variables
     return [(int(v.bounds.lower), int(v.bounds.upper)) for v in vs]
@@ -89,6 +97,15 @@ def make_solver(spec, seam):
         seam.append({"poly": C.canon(polyhedron), "ptype": C.clsname(polyhedron),
                      "objs": [C.dump_ndarray(o) for o in objectives]})
         if mode == "raise":
+            kind = spec.get("exc", "msg")
+            if kind == "bare":
+                raise PeerTimeout          # no arguments at all
+            if kind == "assert":
+                assert n_unreachable(polyhedron)
+            if kind == "stop":
+                return [next(iter(()))]    # StopIteration out of the solver call
+            if kind == "key":
+                raise KeyError(("peer", 7))
             raise PeerDown("peer unavailable")
         n = polyhedron.A.shape[1]
         if mode == "exact":
